@@ -38,6 +38,9 @@ StickyMake ==
                    <<"C14_AnchorRight", \A j \in C : ScopeAgrees(ms[j]) /\ C14_AnchorRight(E, R, HandleOf(ms[j]), ms[j].i)>>,
                    <<"C14_RoundTrip", \A j \in C : ms[j].rtb /\ ms[j].rtj>> >>
          dr  == (IF \E j \in C : ~AnchorByRule(E, R, HandleOf(ms[j]), ms[j].i) THEN {"sticky-anchor-rule"} ELSE {})
+                \cup (IF \E j \in C : AnchorOnFirstHalf(E, HandleOf(ms[j])) THEN {"sticky-anchor-first-half-of-pair"} ELSE {})
+                \* (the executor never asks for a position between the halves of a surrogate pair: a caller error)
+                \cup (IF \E j \in J : ms[j].i <= n /\ ~OnCharBoundary(E, Visible(E, R, Ev.cont), ms[j].i) THEN {"sticky-asked-inside-pair"} ELSE {})
                 \cup (IF \E j \in J \ C : ms[j].i = n /\ ms[j].assoc = "after" THEN {"sticky-after-end-not-created"} ELSE {})
                 \cup (IF \E j \in C : ms[j].i > n THEN {"sticky-created-beyond-end"} ELSE {})
                 \cup (IF ObsRep(Ev.obs, R.dlv, R.ddel) # R THEN {"sticky-changed-state"} ELSE {})
